@@ -298,7 +298,32 @@ pub fn witnesses() -> Vec<Case> {
     w
 }
 
-pub fn gen(seed: u64, n: usize, _tier: &str) -> Vec<Case> {
+/// witnesses of classes that live outside this branch's model (blocking pops, scripts): they are
+/// replayed on the implementation only (known_findings.json), never generated for the differential run
+pub fn binary_witnesses() -> Vec<Case> {
+    let ld = vec![V::cmd(&[b"LRANGE", b"l", b"0", b"-1"]), V::cmd(&[b"GET", b"k"]), V::cmd(&[b"DBSIZE"])];
+    let pre = || vec![conn_op(1), conn_op(2), conn_op(DUMP_CONN), cmd_op(DUMP_CONN, &[b"VERIF", b"SWEEP", b"PAUSE"])];
+    let fin = |mut ops: Vec<Vec<Tok>>, id: &str| { ops.push(aofread_op()); ops.push(aofreplay_op(1, &ld)); Case { id: id.to_string(), ops, outs: vec![] } };
+    // a BLPOP that finds an element pops it at once: a write that is not logged
+    let mut a = pre(); a.push(cmd_op(1, &[b"RPUSH", b"l", b"a"])); a.push(cmd_op(1, &[b"BLPOP", b"l", b"1"]));
+    // a pop served to a blocked client when another client pushes
+    let mut b2 = pre(); b2.push(cmdq_op(1, &[b"BLPOP", b"l", b"0"])); b2.push(cmd_op(2, &[b"RPUSH", b"l", b"a"]));
+    // EVALSHA is logged by hash: the replaying server has no such script
+    let mut c = pre(); c.push(cmd_op(1, &[b"SCRIPT", b"LOAD", b"redis.call('SET','k','v')"]));
+    c.push(cmd_op(1, &[b"EVALSHA", b"a5df90b484682a08cdc69c29c2aaff5871448a37", b"0"]));
+    // the random classes with the random reply itself left out of the output (CMDQ), flags only (mode 0)
+    let members: Vec<Vec<u8>> = (0..40).map(|j| format!("m{}", j).into_bytes()).collect();
+    let mut sadd: Vec<&[u8]> = vec![b"SADD", b"s"]; for m in &members { sadd.push(m); }
+    let mut d = pre(); d.push(cmd_op(1, &sadd)); d.push(cmdq_op(1, &[b"SPOP", b"s", b"20"]));
+    d.push(aofread_op()); d.push(aofreplay_op(0, &[V::cmd(&[b"SMEMBERS", b"s"]), V::cmd(&[b"SCARD", b"s"])]));
+    let mut e = pre(); e.push(cmdq_op(1, &[b"XADD", b"x", b"*", b"f", b"v"]));
+    e.push(aofread_op()); e.push(aofreplay_op(0, &[V::cmd(&[b"XRANGE", b"x", b"-", b"+"]), V::cmd(&[b"XLEN", b"x"])]));
+    vec![fin(a, "w-blpop-immediate"), fin(b2, "w-blpop-served"), fin(c, "w-evalsha"),
+         Case { id: "w-random-spop-q".to_string(), ops: d, outs: vec![] }, Case { id: "w-random-xadd-q".to_string(), ops: e, outs: vec![] }]
+}
+
+pub fn gen(seed: u64, n: usize, tier: &str) -> Vec<Case> {
+    if tier == "binary-witnesses" { return binary_witnesses(); }
     let mut r = Rng::new(seed);
     let mut cases = vec![table_case()];
     cases.extend(witnesses());
